@@ -59,6 +59,16 @@ Definition validate (k : vkind) (v : pv) : res unit :=
       | PList l => if forallb (v_in_choices c) l then Ok tt else Err EValue
       | _ => if v_in_choices c v then Ok tt else Err EValue
       end
+  | VChoiceStr c =>                    (* in_choices(c, False): a list is refused first *)
+      match v with
+      | PList _ => Err EValue
+      | _ => if v_in_choices c v then Ok tt else Err EValue
+      end
+  | VChoiceList c =>                   (* in_choices(c, True): anything but a list is refused first *)
+      match v with
+      | PList l => if forallb (v_in_choices c) l then Ok tt else Err EValue
+      | _ => Err EValue
+      end
   | VUnknown _ => Err EOracleMiss      (* a validator the extractor could not identify: fail closed *)
   end.
 
